@@ -15,7 +15,9 @@ from common import S, L, I, run_driver, rng_for, load_known_findings
 RULES = ['jsessionid', 'wayback', 'wayback_uk']
 WORDS = ['alpha', 'beta', 'report', 'data', 'the', 'of', 'climate', '2020', 'x', 'naïve', 'read', 'more']
 TARGETS = ['http://example.gov/', 'https://www.noaa.gov/data/index.html', 'example.org/a/b?q=1', 'http://e.com/a.png', 'www.epa.gov/img/logo.gif',
-           'https://example.gov/report.pdf', 'http://example.gov/x/20190101000000/y']
+           'https://example.gov/report.pdf', 'http://example.gov/x/20190101000000/y',
+           # targets that carry the OTHER kind of noise, unchanged between the pages (an archived servlet URL)
+           'https://host.test/path;jsessionid=ABCDEF0123', 'http://h.test/app.do;jsessionid=0a1b2c;k=v']
 HOSTS = ['http://web.archive.org/', 'https://web.archive.org/', '/', '']
 MODS = {'wayback': ['', 'im_', 'js_', 'cs_'], 'wayback_uk': ['', 'mp_', 'im_']}
 
@@ -50,7 +52,9 @@ def make_url(kind, rng, stamp, spec=None):
         elif kind == 'wayback_uk':
             spec = ('', rng.choice(MODS['wayback_uk']), rng.choice(TARGETS))
         elif kind == 'jsessionid':
-            spec = (rng.choice(['https://www.ncdc.noaa.gov/homr/api', '/app/page.do', 'http://h.test/a/b']), rng.choice(['', ';k=v', ';k=v;j=w']), None)
+            spec = (rng.choice(['https://www.ncdc.noaa.gov/homr/api', '/app/page.do', 'http://h.test/a/b',
+                                'http://web.archive.org/web/20100101000000/http://h.test/servlet',
+                                'https://www.webarchive.org.uk/wayback/en/archive/20100101000000mp_/http://h.test/s']), rng.choice(['', ';k=v', ';k=v;j=w']), None)
         else:
             spec = (rng.choice(TARGETS), None, None)
     if kind == 'wayback':
